@@ -1420,6 +1420,10 @@ func (k *c10k) listEntryInvariant() (func(ta *ssa.TypeAssert) bool, func() (bool
 	entryT := load.ModulePath + "/internal/cache.Entry"
 	covers := func(ta *ssa.TypeAssert) bool {
 		o, f, _, ok := fieldLoad(ta.X)
+		if call, isCall := ta.X.(*ssa.Call); isCall && ssau.CallName(call) == "(*container/list.List).Remove" {
+			// Remove(e) hands back e.Value
+			o, f, ok = elem, "Value", true
+		}
 		if !ok || o != elem || f != "Value" {
 			return false
 		}
